@@ -37,6 +37,7 @@ type noiseAttacker struct {
 	initiator bool
 	prologue  []byte
 	payload   func(static noise.DHKey) []byte // handshake payload to send, given the attacker's static key
+	static    *noise.DHKey                    // fixed static key (default: a fresh one)
 
 	peerPayload []byte // the honest side's decrypted handshake payload (harvest)
 	peerStatic  []byte
@@ -67,6 +68,9 @@ func (a *noiseAttacker) run(c net.Conn, nonce []byte) {
 	if err != nil {
 		a.err = err
 		return
+	}
+	if a.static != nil {
+		kp = *a.static
 	}
 	hs, err := noise.NewHandshakeState(noise.Config{CipherSuite: attackerSuite, Pattern: noise.HandshakeXX, Initiator: a.initiator, StaticKeypair: kp, Prologue: a.prologue})
 	if err != nil {
@@ -261,7 +265,8 @@ func harvest(victim, attacker *keys.Identity) (key, sig []byte, err error) {
 	wg.Wait()
 	cv.Close()
 	cm.Close()
-	if att.err != nil || !o.hsOK {
+	// the victim's payload arrives in message 2, before the victim has judged the attacker
+	if att.peerPayload == nil {
 		return nil, nil, fmt.Errorf("harvest session failed: attacker=%v victim=%s", att.err, o)
 	}
 	for _, f := range decodeFields(att.peerPayload) {
@@ -438,10 +443,10 @@ func runAttack(t *testing.T, rt *rapid.T, c attackCase) (nontrivial bool, labels
 	bubble(t, rt, func() {
 		var err error
 		if x.harvKey, x.harvSig, err = harvest(x.V, x.M); err != nil {
-			f.Fatalf("%s: %v", c.key(), err)
+			bail("%s: %v", c.key(), err)
 		}
 		if x.tlsSig, err = tlsContextSig(x.V); err != nil {
-			f.Fatalf("%s: %v", c.key(), err)
+			bail("%s: %v", c.key(), err)
 		}
 		att.payload = func(s noise.DHKey) []byte { return v.build(x, s) }
 		ch, cm := memnet.Pipe(memnet.Options{})
@@ -466,7 +471,7 @@ func runAttack(t *testing.T, rt *rapid.T, c attackCase) (nontrivial bool, labels
 	// the only identity whose private key the attacker holds and uses is M
 	checkIdentity(f, ctx, pNoise, h, o, x.M, true)
 	checkNoGarbage(f, ctx, h, o)
-	if v.name == "control-honest" {
+	if v.name == "control-honest" && !noConverse {
 		if h.accepts(x.M.ID) && h.mustAccept(pNoise, x.M.ID) {
 			if !o.hsOK || !o.echoOK || !att.echoOK {
 				f.Fatalf("%s: the attacker behaving honestly as itself was not accepted: honest=%s attacker: done=%v echo=%v err=%v", ctx, o, att.hsDone, att.echoOK, att.err)
